@@ -764,7 +764,19 @@ def t_pos_init(facts, res, tier):
                     continue
                 var = next(iter(names))
                 # the loop over children that follows in the same block
-                loop = next((t for t in stmts[i + 1:] if t.get("k") == "for" and "into_inner()" in norm(t["iter"])), None)
+                def walks_children(t):
+                    if t.get("k") != "for":
+                        return False
+                    it = norm(t["iter"])
+                    if "into_inner()" in it:
+                        return True
+                    # `let param = p.into_inner(); .. for pair in param`
+                    init = None
+                    for b2 in walk(fn["body"]):
+                        if b2.get("k") == "let" and it in pat_names(b2.get("pat")) and b2.get("init") is not None:
+                            init = b2["init"]
+                    return init is not None and "into_inner()" in norm(init)
+                loop = next((t for t in stmts[i + 1:] if walks_children(t)), None)
                 if loop is None:
                     continue
                 m = next((x for x in walk(loop["body"]) if x.get("k") == "match" and "as_rule()" in norm(x["e"])), None)
